@@ -61,7 +61,7 @@ pub fn gen_plan(property: &str, seed: u64, index: u64, tier: Tier) -> Plan {
             let mode = rng.below(10);
             let depth: u8;
             let mut big = false;
-            if index % 8 == 3 {
+            if mix(seed, index, 0x4247) % 8 == 0 {
                 // big search: > 10^5 positions in one context (depth 5 on an ending, warmed by earlier
                 // searches), so that whatever accumulates in the shared state really accumulates
                 start = Pos::from_fen(*rng.pick(&BIG_SEARCH_FENS[..])).unwrap();
@@ -86,9 +86,9 @@ pub fn gen_plan(property: &str, seed: u64, index: u64, tier: Tier) -> Plan {
                 scenario = "middlegame";
             }
             knobs.insert("depth".into(), depth as i64);
-            knobs.insert("iterations".into(), if big { if thorough { 6 } else { 2 } } else if thorough { 40 } else { 10 });
+            knobs.insert("iterations".into(), if big { if thorough { 6 } else { 3 } } else if thorough { 40 } else { 10 });
             // initial cache contents: empty, or warmed by 0..3 earlier searches run sequentially
-            let warm = if big { rng.range(1, 2) } else { rng.below(4) };
+            let warm = if big { 2 } else { rng.below(4) };
             let mut pos = start.clone();
             for _ in 0..warm {
                 let legal = pos.legal_moves();
